@@ -71,6 +71,7 @@ def plan(tier, seed):
                mutants=[{'name': 'nonstrict_swallows', 'cfg': by['invalid:under-condition']},
                         {'name': 'strict_ignored', 'cfg': by['invalid:under-literal-false']},
                         {'name': 'tokenref_first_site', 'cfg': by['invalid:two-sites-same-text']}])
+    famL = dict(name='strictness_through_loaders', module=H, fn='via_loader', jobs=[{}], timeout=300, vacuity=1, mutants=[])
     return dict(
         level='translation_validation',
         functions=['chameleon.compiler:ExpressionTransform.__call__', 'chameleon.template:BaseTemplate._compile',
@@ -83,9 +84,9 @@ def plan(tier, seed):
                 'succeed and render must raise the ExpressionError located at the reached site (token, offset, line and '
                 'column) iff the reference interpreter reaches it; 4 of them again spread over several lines with CRLF '
                 'line endings; %d valid templates from the C01/C04 grammars render identically under both '
-                'settings. Bindings decided by the solver. Outside: invalid non-python expression types.'
+                'settings. Bindings decided by the solver. The strict option given / not given to PageTemplateLoader (load, [] and text format) and to a PageTemplateFile pulling a page in with load: reaches the created template (strict, reached and the route are chosen by the solver; compilation concrete). Outside: invalid non-python expression types.'
                 % (len(invalid_programs(tier)), len(jobs) - len(invalid_programs(tier)) - 4)),
         assumptions=['reachability oracle = reference interpreter vlib/refsem.py', 'offset of a planted site = position of its '
                      'text in the template the harness serialised'],
-        families=[fam],
+        families=[fam, famL],
     )
